@@ -1002,6 +1002,7 @@ def collectType (rt : RT) : Ty → RT
   | .ref e =>
     if memTy (.ref e) rt.refs then rt
     else collectType { rt with refs := rt.refs ++ [.ref e] } e
+  | .vec e => collectType rt e
   | .app t args => collectTypes (collectType rt t) args
   | .func ps r => collectType (collectTypes rt ps) r
   | _ => rt
@@ -1111,7 +1112,8 @@ end
 
 def dynFn (r : DynReq) (f : AFn) : DynReq := dynA (dynTy (dynTys r (f.params.map (·.2))) f.ret) f.body
 
-def collectDynRequirements (file : AFile) : DynReq := file.foldl dynFn {}
+/-- the part of `collect_dyn_requirements` that walks the functions -/
+def collectDynFns (file : AFile) : DynReq := file.foldl dynFn {}
 
 def strLe (a b : String) : Bool := Mangle.nameLe a.toList b.toList
 
@@ -1230,6 +1232,14 @@ def structEmitted (d : StructDef) : Bool :=
 def enumEmitted (d : EnumDef) : Bool :=
   !(strContains d.name "TParam" || d.variants.any (fun v => v.2.any isParamTy))
 
+/-- `collect_dyn_requirements`: the functions first, then the field types of every emitted struct and the payload
+    types of every emitted enum (a `dyn Trait` type that occurs only inside a type definition still needs its
+    trait object struct and vtable struct) -/
+def collectDynRequirements (env : Env) (file : AFile) : DynReq :=
+  let r := collectDynFns file
+  let r := env.structs.foldl (fun r d => if structEmitted d then dynTys r (d.fields.map (·.2)) else r) r
+  env.enums.foldl (fun r d => if enumEmitted d then d.variants.foldl (fun r v => dynTys r v.2) r else r) r
+
 /-- `collect_runtime_types`: the functions first, then the field types of every emitted struct and the payload
     types of every emitted enum (a tuple / Ref / array type that occurs only inside a type definition still needs
     its runtime declaration) -/
@@ -1278,7 +1288,7 @@ def goFilePreSt (env : Env) (file : AFile) (n : Nat) : GFile × St :=
     else
       let extra := extraImportPaths env (existingImports base)
       if extra.isEmpty then base else addImports (extra.map fun p => (goImportAlias p, p)) base
-  let req := collectDynRequirements file
+  let req := collectDynRequirements env file
   let fns := compileFns env { n := n, ok := true } file
   let ok := fns.2.ok && okArrayRuntime rt.arrays && okRefRuntime rt.refs && rt.tuples.all okTy &&
     okTypeDefinition env && okDyn env req
